@@ -379,8 +379,23 @@ Section Mode.
     let p1 := to_dtype train p dflt in
     match master p1 with
     | Some m => mkP (upd (live p1) (copy_into (cell p1 (live p1) dflt) (cell p1 m dflt)) (cells p1)) (live p1) (master p1)
-    | None => p1                          (* train_params unset: AttributeError in Python; not reached after serve_mode *)
+    | None => p1                          (* no entry in train_params: load_state_dict does not touch this tensor *)
     end.
+
+  (* Every tensor the forward pass reads (named_parameters and named_buffers, persistent or not), tagged with
+     whether it is an entry of state_dict(): `.to()` converts all of them, train_params / load_state_dict only
+     know the state_dict entries. *)
+  Definition serve_tensor (on_cpu : bool) (serve : dtype) (dflt : tensor) (t : bool * pstate) : bool * pstate :=
+    let '(in_sd, p) := t in
+    (in_sd, if in_sd then serve_param on_cpu serve p dflt else to_dtype serve (mkP (cells p) (live p) None) dflt).
+  Definition train_tensor (train : dtype) (dflt : tensor) (t : bool * pstate) : bool * pstate :=
+    (fst t, train_param train (snd t) dflt).
+  Definition serve_mode_all (on_cpu : bool) (serve : dtype) (dflt : tensor) (m : list (bool * pstate)) :=
+    map (serve_tensor on_cpu serve dflt) m.
+  Definition train_mode_all (train : dtype) (dflt : tensor) (m : list (bool * pstate)) :=
+    map (train_tensor train dflt) m.
+  Definition values_all (dflt : tensor) (m : list (bool * pstate)) : list tensor :=
+    map (fun t => cell (snd t) (live (snd t)) dflt) m.
 
   Definition serve_mode (on_cpu : bool) (serve : dtype) (dflt : tensor) (m : list pstate) : list pstate :=
     map (fun p => serve_param on_cpu serve p dflt) m.
@@ -468,18 +483,20 @@ Definition trace_case_ok (c : list (Z * Z) * list (op CB)) : bool :=
 
 (* mode switch on digests: T = Z, a conversion changes the digest in an arbitrary way *)
 Definition digest_cast (d : dtype) (v : Z) : Z := 2 * v + match d with F32 => 1 | F16 => 3 | BF16 => 5 | F64 => 7 end.
-Definition mode_case := (bool * dtype * dtype * list Z * list bool * list Z)%type.
-   (* on_cpu, serve, train, digest of every parameter before, observed aliasing per key, digests after *)
+Definition mode_case := (bool * dtype * dtype * list Z * list bool * list bool * list Z)%type.
+   (* on_cpu, serve, train; per tensor the forward pass reads: digest before, is it a state_dict entry,
+      observed aliasing of train_params[k] with the live tensor, digest after *)
 Definition mode_case_ok (c : mode_case) : bool :=
-  let '(cpu, serve, train, before, alias, after) := c in
+  let '(cpu, serve, train, before, in_sd, alias, after) := c in
   let dflt := (train, 0) in
-  let m := map (fun v => mkP [(train, v)] 0 None) before in
-  let served := serve_mode digest_cast cpu serve dflt m in
-  let back := train_mode digest_cast train dflt served in
+  let m := map (fun vs => (snd vs, mkP [(train, fst vs)] 0 None)) (combine before in_sd) in
+  let served := serve_mode_all digest_cast cpu serve dflt m in
+  let back := train_mode_all digest_cast train dflt served in
+  Nat.eqb (List.length before) (List.length in_sd) &&
   (fix eqz (a b : list Z) := match a, b with [] , [] => true | x :: r, y :: t => Z.eqb x y && eqz r t | _, _ => false end)
-    (map snd (values dflt back)) after &&
+    (map snd (values_all dflt back)) after &&
   (fix eqb' (a b : list bool) := match a, b with [] , [] => true | x :: r, y :: t => Bool.eqb x y && eqb' r t | _, _ => false end)
-    (map aliased served) alias.
+    (map (fun t => aliased (snd t)) served) alias.
 Definition window_case_ok (c : Z * list Z * list (list Z)) : bool :=
   let '(cap, tags, bufs) := c in
   (fix go (k : nat) (bufs : list (list Z)) :=
